@@ -723,3 +723,249 @@ pub fn pb_template_faults(n: usize, len: u64, other_gen: usize, positions_seed: 
     }
     v
 }
+
+// ------------------------------------------------------------------ in-process histories
+
+/// For a loader that returned Ok: every artifact it reads on its success path must be canonical
+/// for the shape in use. Returns the first offending file.
+pub fn acceptance_allowed(refs: &Refs, disk: &BTreeMap<String, Vec<u8>>, loader: &str, arg_shape: (usize, Option<usize>)) -> Result<(), String> {
+    let (n, m) = if shape_from_config(loader) {
+        match disk.get("config.json").and_then(|b| parse_config(b)) {
+            Some(s) => s,
+            None => return Err("config.json does not parse".into()),
+        }
+    } else {
+        arg_shape
+    };
+    for name in loader_reads(loader) {
+        let bytes = disk.get(*name).cloned().unwrap_or_default();
+        let verdict: Option<bool> = match *name {
+            "common.bin" | "verifier.bin" => Some(bytes == refs.gens[0].files[*name]),
+            "private_batch_common.bin" | "private_batch_verifier.bin" => refs.gen_for_n(n).map(|r| bytes == r.files[*name]),
+            "public_batch_common.bin" | "public_batch_verifier.bin" => match refs.gen_for(n, m) {
+                Some(r) if r.files.contains_key("public_batch_common.bin") => {
+                    let on_disk = reserialise_public(disk.get("public_batch_common.bin").map(|v| v.as_slice()).unwrap_or(&[]), disk.get("public_batch_verifier.bin").map(|v| v.as_slice()).unwrap_or(&[]));
+                    let reference = reserialise_public(&r.files["public_batch_common.bin"], &r.files["public_batch_verifier.bin"]);
+                    Some(on_disk.is_some() && on_disk == reference)
+                }
+                _ => None,
+            },
+            "dummy_proof.bin" => Some(leaf_template_ok(&bytes, refs)),
+            "dummy_private_batch_proof.bin" => {
+                if refs.pb.contains_key(&n) {
+                    Some(pb_template_ok(&bytes, n, refs))
+                } else {
+                    None
+                }
+            }
+            _ => Some(true),
+        };
+        if verdict == Some(false) {
+            return Err(format!("{name} is not canonical for shape ({n},{m:?})"));
+        }
+    }
+    Ok(())
+}
+
+/// One variant of the live directory: a generation plus storage faults.
+#[derive(Clone, Debug, Serialize, Deserialize)]
+pub struct Variant {
+    pub gen: usize,
+    pub faults: Vec<SFault>,
+}
+
+#[derive(Clone, Debug, Serialize, Deserialize)]
+pub struct BootStep {
+    pub loader: String,
+    pub variant: usize,
+}
+
+/// A long-running process that boots consumers repeatedly while the directory is rotated under it.
+#[derive(Clone, Debug, Serialize, Deserialize)]
+pub struct BootHistory {
+    pub variants: Vec<Variant>,
+    pub steps: Vec<BootStep>,
+    #[serde(default)]
+    pub fseed: u64,
+}
+
+#[derive(Clone, Debug, Default)]
+pub struct HistoryEval {
+    pub findings: Vec<(String, String)>,
+    pub probes: Counters,
+    pub results: Vec<String>,
+    pub died: bool,
+}
+
+pub fn run_boot_history(sb: &mut Sandbox, refs: &Refs, h: &BootHistory) -> HistoryEval {
+    let mut ev = HistoryEval::default();
+    let fs = sb.reset();
+    let mut frng = Rng::new(h.fseed);
+    let mut disks: Vec<BTreeMap<String, Vec<u8>>> = vec![];
+    let mut vdirs = vec![];
+    for (i, v) in h.variants.iter().enumerate() {
+        let d = fs.join(format!("var_{i}"));
+        write_set(&d, &refs.gens[v.gen].files);
+        for f in &v.faults {
+            apply_fault(&d, v.gen, f, refs, &mut frng);
+        }
+        let mut m = BTreeMap::new();
+        for e in std::fs::read_dir(&d).unwrap().flatten() {
+            m.insert(e.file_name().to_string_lossy().into_owned(), std::fs::read(e.path()).unwrap_or_default());
+        }
+        disks.push(m);
+        vdirs.push(d.to_string_lossy().into_owned());
+    }
+    let steps: Vec<serde_json::Value> = h.steps.iter().map(|s| {
+        let g = &refs.gens[h.variants[s.variant].gen];
+        json!({"loader": s.loader, "variant": s.variant, "n": g.n, "m": g.m.unwrap_or(1)})
+    }).collect();
+    let run = sb.run_child(ChildSpec { action: "boot_history".into(), args: args_of(&[("dir", json!(fs.join("bins").to_string_lossy())), ("variants", json!(vdirs)), ("steps", json!(steps)), ("include_prover", json!(true))]), as_limit_mb: 24 * 1024, rayon_threads: 2, ..Default::default() });
+    let Some(res) = run.result.clone() else {
+        ev.died = true;
+        ev.probes.inc("history_child_died");
+        return ev;
+    };
+    if res.result != "ok" {
+        ev.probes.inc(&format!("history_child_{}", res.result));
+        return ev;
+    }
+    let out = res.extra["steps"].as_array().cloned().unwrap_or_default();
+    let mut accepted_before = false;
+    for (i, (st, r)) in h.steps.iter().zip(out.iter()).enumerate() {
+        let kind = r["result"].as_str().unwrap_or("?").to_string();
+        ev.results.push(kind.clone());
+        ev.probes.inc(&format!("history_step_{kind}"));
+        let g = &refs.gens[h.variants[st.variant].gen];
+        if kind == "ok" {
+            match acceptance_allowed(refs, &disks[st.variant], &st.loader, (g.n, g.m)) {
+                Ok(()) => {}
+                Err(why) => {
+                    let tpl = why.starts_with("dummy_");
+                    ev.findings.push((if tpl { "load:bad-template-accepted".into() } else { "load:non-canonical-artifact-accepted".into() }, format!("step {i} of a single process: {} returned Ok over variant {:?} although {why} (earlier steps: {:?})", st.loader, h.variants[st.variant], &ev.results[..i])));
+                }
+            }
+            if accepted_before {
+                ev.probes.inc("acceptance_after_an_earlier_acceptance_in_the_same_process");
+            }
+            accepted_before = true;
+        } else if accepted_before {
+            ev.probes.inc("rejection_after_an_earlier_acceptance_in_the_same_process");
+        }
+    }
+    ev
+}
+
+pub const DIR_LOADERS: &[&str] = &["load_aggregator", "load_public_dir", "load_private_dir", "load_aggregator_new"];
+
+/// The rotation variants for an ordered pair of generations (a, b): both genuine sets, b with one
+/// artifact family (or its config) left over from a, and a with a flipped template.
+pub fn rotation_variants(refs: &Refs, a: usize, b: usize, rng: &mut Rng) -> Vec<Variant> {
+    let mut variants: Vec<Variant> = vec![];
+    variants.push(Variant { gen: a, faults: vec![] });
+    variants.push(Variant { gen: b, faults: vec![] });
+    let families: [&[&str]; 4] = [&["public_batch_common.bin", "public_batch_verifier.bin"], &["private_batch_common.bin", "private_batch_verifier.bin"], &["dummy_private_batch_proof.bin"], &["dummy_proof.bin"]];
+    for fam in families.iter() {
+        variants.push(Variant { gen: b, faults: fam.iter().map(|f| SFault::Lost { file: f.to_string(), from_gen: a }).collect() });
+    }
+    let oa = &refs.gens[a];
+    variants.push(Variant { gen: b, faults: vec![SFault::Config { variant: "other_shape".into(), n: oa.n, m: oa.m }] });
+    variants.push(Variant { gen: a, faults: vec![SFault::BitFlip { file: "dummy_private_batch_proof.bin".into(), offset: rng.below(4096), bit: rng.below(8) as u8 }] });
+    variants
+}
+
+/// Enumerated two-step histories: every directory loader pins the genuine set of a, then boots
+/// again (same process, same path) from each rotation variant.
+pub fn pair_histories(refs: &Refs, a: usize, b: usize, rng: &mut Rng) -> Vec<BootHistory> {
+    let variants = rotation_variants(refs, a, b, rng);
+    let mut v = vec![];
+    for l in DIR_LOADERS {
+        for k in 2..variants.len() {
+            v.push(BootHistory { variants: variants.clone(), steps: vec![BootStep { loader: l.to_string(), variant: 0 }, BootStep { loader: l.to_string(), variant: k }], fseed: 1 });
+        }
+    }
+    v
+}
+
+/// Seeded rotation history: a genuine generation gets pinned first (most of the time), then the
+/// directory is rotated through other shapes and mixed generations.
+pub fn random_boot_history(refs: &Refs, rng: &mut Rng) -> BootHistory {
+    let dir_loaders = DIR_LOADERS;
+    let ng = 3usize;
+    let a = rng.usize(ng);
+    let b = (a + 1 + rng.usize(ng - 1)) % ng;
+    let mut variants: Vec<Variant> = vec![];
+    variants.push(Variant { gen: a, faults: vec![] });
+    variants.push(Variant { gen: b, faults: vec![] });
+    // mixed generations: generation b with one artifact family kept from a (a crashed or partial rotation)
+    let families: [&[&str]; 4] = [&["public_batch_common.bin", "public_batch_verifier.bin"], &["private_batch_common.bin", "private_batch_verifier.bin"], &["dummy_private_batch_proof.bin"], &["dummy_proof.bin"]];
+    for fam in families.iter() {
+        variants.push(Variant { gen: b, faults: fam.iter().map(|f| SFault::Lost { file: f.to_string(), from_gen: a }).collect() });
+    }
+    let oa = &refs.gens[a];
+    variants.push(Variant { gen: b, faults: vec![SFault::Config { variant: "other_shape".into(), n: oa.n, m: oa.m }] });
+    variants.push(Variant { gen: a, faults: vec![SFault::BitFlip { file: "dummy_private_batch_proof.bin".into(), offset: rng.below(4096), bit: rng.below(8) as u8 }] });
+    let n = rng.range(3, 5) as usize;
+    let mut steps = vec![];
+    for i in 0..n {
+        let variant = if i == 0 && rng.chance(3, 4) { 0 } else { rng.usize(variants.len()) };
+        steps.push(BootStep { loader: rng.pick(&dir_loaders).to_string(), variant });
+    }
+    BootHistory { variants, steps, fseed: rng.next_u64() }
+}
+
+#[derive(Clone, Debug, Serialize, Deserialize)]
+pub struct TemplateHistory {
+    /// (circuit index, template index): circuits 0 = canonical leaf, 1/2 = leaf-shaped circuits with
+    /// other verifier keys; templates 0 = genuine, 1/2 = dummy-sentinel proofs under circuit 1/2,
+    /// 3 = template 1 with a non-sentinel public input changed
+    pub steps: Vec<(usize, usize)>,
+}
+
+pub fn random_template_history(rng: &mut Rng) -> TemplateHistory {
+    let n = rng.range(3, 6) as usize;
+    let mut steps = vec![];
+    for _ in 0..n {
+        let c = rng.usize(3);
+        // mostly the matching template or the other alternative's
+        let t = match rng.below(5) {
+            0 | 1 => c,
+            2 => (c + 1) % 3,
+            3 => (c + 2) % 3,
+            _ => 3,
+        };
+        steps.push((c, t));
+    }
+    TemplateHistory { steps }
+}
+
+pub fn run_template_history(sb: &mut Sandbox, refs: &Refs, h: &TemplateHistory) -> HistoryEval {
+    let mut ev = HistoryEval::default();
+    let fs = sb.reset();
+    let dir = fs.join("bins");
+    write_set(&dir, &refs.gens[0].files);
+    let steps: Vec<serde_json::Value> = h.steps.iter().map(|(c, t)| json!({"circuit": c, "template": t})).collect();
+    let run = sb.run_child(ChildSpec { action: "template_history".into(), args: args_of(&[("dir", json!(dir.to_string_lossy())), ("steps", json!(steps))]), as_limit_mb: 24 * 1024, rayon_threads: 2, ..Default::default() });
+    let Some(res) = run.result.clone() else {
+        ev.died = true;
+        return ev;
+    };
+    if res.result != "ok" {
+        ev.probes.inc(&format!("history_child_{}", res.result));
+        ev.findings.push(("harness:template-history-failed".into(), format!("{} {}", res.result, res.error)));
+        return ev;
+    }
+    for (i, r) in res.extra["steps"].as_array().cloned().unwrap_or_default().iter().enumerate() {
+        let kind = r["result"].as_str().unwrap_or("?").to_string();
+        let truth = r["template_verifies_under_this_verifier"].as_bool().unwrap_or(false);
+        ev.results.push(format!("c{}t{}:{}", r["circuit"], r["template"], kind));
+        ev.probes.inc(&format!("template_history_step_{kind}"));
+        if kind == "ok" && !truth {
+            ev.findings.push(("load:bad-template-accepted".into(), format!("step {i} of a single process: PrivateBatchProver::new accepted template {} under pinned leaf verifier {}, under which it does not verify (earlier steps: {:?})", r["template"], r["circuit"], &ev.results[..i])));
+        }
+        if kind != "ok" && truth && h.steps[i].1 != 3 {
+            ev.probes.inc("template_history_valid_pair_rejected");
+        }
+    }
+    ev
+}
